@@ -8,7 +8,7 @@ PROP = "C09"
 SPEC_MODE = "oracle"
 KEEP_PREFIX = 1
 EXTRA_MODULES = ("Sentinel.Lemmas.LeapArrayRace", "Sentinel.Lemmas.LeapArrayRaceTerm", "Sentinel.Lemmas.LeapArrayRaceOwn",
-                 "Sentinel.Lemmas.LeapArrayRaceStarted", "Sentinel.Lemmas.LeapArrayRaceRead")
+                 "Sentinel.Lemmas.LeapArrayRaceStarted", "Sentinel.Lemmas.LeapArrayRaceRead", "Sentinel.Lemmas.LeapArrayRaceDrain")
 SIZES = {"quick": 2500, "thorough": 60000}
 BATCH = 2500
 RULE = ("one case = one schedule: a BucketLeapArray (n in 1..4 buckets, bucket length 1..500 ms) pre-filled sequentially, then a round of "
@@ -221,7 +221,156 @@ def enumerate_configs(ctx):
     return cases, info
 
 
+# ---------------------------------------------------------------------------------------------------------
+# preemption-bounded schedules: independent of the step granularity of the implementation
+# ---------------------------------------------------------------------------------------------------------
+# A schedule "a^k b^M a^M" (run a for k steps, then b to completion, then a to completion; M = RUN entries, far more
+# than any operation needs) reaches every single-preemption interleaving whatever yield points the code under test has
+# — including yield points a changed tree adds (e.g. `bla.add.recheck`, `la.cur.last.*`), which become extra steps on
+# the implementation side only.  Double preemptions "a^k b^m a^M b^M" and a 3-thread family come on top.
+RUN = 60
+PRE500 = ["la.new 2 1000 1000", "thread 0 1000 add pass 5", "sched"]
+HUNT = [
+    # (name, ops incl. thread declarations, read-back ops)
+    ("P-n1-late-add-vs-rolling-add", ["la.new 1 1000 1", "thread 0 999 add pass 1", "thread 1 1000 add pass 1"],
+     ["thread 0 1000 count pass ; viewsum pass", "sched"]),
+    ("P-n1-add-vs-rolling-add-filled", ["la.new 1 500 1", "thread 0 1 add pass 4", "sched", "thread 0 499 add pass 1", "thread 1 500 add pass 2"],
+     ["thread 0 500 count pass", "sched"]),
+    ("P-rolling-add-vs-add-same-bucket", PRE500 + ["thread 0 2000 add pass 1", "thread 1 2001 add pass 1"],
+     ["thread 0 2002 count pass ; viewsum pass", "sched"]),
+    ("P-adds-across-boundary", ["la.new 2 1000 600", "thread 0 999 add pass 1", "thread 1 1000 add pass 1"],
+     ["thread 0 1000 viewsum pass ; count pass", "sched", "thread 0 1600 count pass ; viewsum pass", "sched"]),
+    ("P-adds-across-boundary-warm", ["la.new 2 1000 600", "thread 0 700 add pass 3", "sched", "thread 0 999 add pass 1", "thread 1 1000 add pass 1"],
+     ["thread 0 1600 count pass ; viewsum pass", "sched"]),
+    ("P-rolling-add-vs-count", PRE500 + ["thread 0 2000 add pass 1", "thread 1 2000 count pass"],
+     ["thread 0 2400 count pass ; viewsum pass", "sched"]),
+    ("P-rolling-count-vs-viewsum", PRE500 + ["thread 0 2000 count pass", "thread 1 2000 viewsum pass"],
+     ["thread 0 2000 count pass ; viewsum pass", "sched"]),
+    ("P-rt-rolling", ["la.new 2 1000 1000", "thread 0 1000 add rt 40 ; conc 3", "sched", "thread 0 2000 add rt 30", "thread 1 2001 add rt 20"],
+     ["thread 0 2002 count rt", "sched"]),
+]
+HUNT3 = [
+    ("Q-two-adds-then-next-slot", PRE500 + ["thread 0 2000 add pass 1", "thread 1 2000 add pass 4", "thread 2 2500 add pass 2"],
+     ["thread 0 2500 count pass ; viewsum pass", "sched", "thread 0 3100 count pass ; viewsum pass", "sched"]),
+    ("Q-boundary-three", ["la.new 3 1500 600", "thread 0 999 add pass 1", "thread 1 1000 add pass 2", "thread 2 1000 count pass"],
+     ["thread 0 1400 count pass ; viewsum pass", "sched"]),
+]
+
+
+def preempt_schedules2(kmax, grid):
+    out = []
+    for a, b in ((0, 1), (1, 0)):
+        for k in range(kmax + 1):
+            out.append([str(a)] * k + [str(b)] * RUN + [str(a)] * RUN)
+        for k in grid:
+            for m in grid:
+                if m:
+                    out.append([str(a)] * k + [str(b)] * m + [str(a)] * RUN + [str(b)] * RUN)
+    return out
+
+
+def preempt_schedules3(grid):
+    import itertools
+    out = []
+    for a, b, c in itertools.permutations((0, 1, 2)):
+        for k in grid:
+            for m in grid:
+                out.append([str(a)] * k + [str(b)] * m + [str(a)] * RUN + [str(b)] * RUN + [str(c)] * RUN)
+    return out
+
+
+def preemption_cases(ctx):
+    cases = []
+    quick = ctx.tier == "quick"
+    s2 = preempt_schedules2(16 if quick else 30, list(range(0, 8)) if quick else list(range(0, 18)))
+    s3 = preempt_schedules3(list(range(0, 7)) if quick else list(range(0, 14)))
+    two = [(n, pre, tail(pre)) for n, pre, _, _, _ in CONFIGS] + HUNT
+    for name, pre, tl in two:
+        for k, sc in enumerate(s2):
+            cases.append(Case(f"{name}-p{k}", pre + [("sched " + " ".join(sc)).strip()] + tl, tags=("preemption-bounded", name)))
+    for name, pre, tl in HUNT3:
+        for k, sc in enumerate(s3):
+            cases.append(Case(f"{name}-p{k}", pre + [("sched " + " ".join(sc)).strip()] + tl, tags=("preemption-bounded", name)))
+    return cases
+
+
+def hunt(ctx, eng, cases, label):
+    """The correspondence is already known to be broken (every case would differ from the model, e.g. because the tree
+    under test has yield points the model does not know): judge the implementation's traces with the oracle only and
+    report the first cases on which the property itself fails, shrunk, as concrete replays."""
+    found = 0
+    for i in range(0, len(cases), 4000):
+        try:
+            res = eng.run3(cases[i:i + 4000])
+        except RuntimeError as e:
+            ctx.violation(f"{label}-harness-error.txt", f"correspondence could not be run ({e})\n", no_input=True)
+            return found
+        ctx.cov["traces_validated_against_impl"] = ctx.cov.get("traces_validated_against_impl", 0) + len(res)
+        for case, (impl, model, judge) in zip(cases[i:i + 4000], res):
+            f, _ = eng.spec_fail(impl, judge)
+            if f is None:
+                continue
+            ops = eng.shrink(case.ops, lambda o: eng.spec_fail(*eng._ij(o))[0] is not None)
+            ops = shrink_sched(eng, ops)
+            impl, model, judge = eng.one(ops)
+            j, _ = eng.spec_fail(impl, judge)
+            ctx.violation(f"{label}-{case.cid}.replay",
+                          eng.render(ops, impl, model, judge, j, f"property {PROP} fails on the implementation ({label} case {case.cid})"))
+            found += 1
+            if found >= 3:
+                return found
+    return found
+
+
+def shrink_sched(eng, ops):
+    """second-level shrinking: shorten the runs inside the schedule lines while the property still fails"""
+    fails = lambda o: eng._safe(lambda x: eng.spec_fail(*eng._ij(x))[0] is not None, o)
+    for li, o in enumerate(ops):
+        if not o.startswith("sched "):
+            continue
+        es = o.split()[1:]
+        # drop trailing entries (the drain finishes the round anyway), then thin out long runs
+        budget = 40
+        while es and budget:
+            budget -= 1
+            cand = es[:len(es) // 2] if len(es) > 8 else es[:-1]
+            trial = ops[:li] + [("sched " + " ".join(cand)).strip()] + ops[li + 1:]
+            if fails(trial):
+                es, ops = cand, trial
+            elif len(es) > 8:
+                cand = es[:-4]
+                trial = ops[:li] + [("sched " + " ".join(cand)).strip()] + ops[li + 1:]
+                if fails(trial):
+                    es, ops = cand, trial
+                else:
+                    break
+            else:
+                break
+    return ops
+
+
 def extra(ctx, eng):
+    broken = bool(ctx.violations)        # only reached without a concrete failing input: the correspondence is broken
+    pc = preemption_cases(ctx)
+    ctx.cov["preemption_bounded_schedules"] = len(pc)
+    if broken:
+        n = hunt(ctx, eng, pc, "preemption")
+        if n == 0:
+            try:
+                cases, info = enumerate_configs(ctx)
+                ctx.cov["enumerated_configurations"] = info
+                n = hunt(ctx, eng, cases, "enumerated")
+            except RuntimeError as e:
+                ctx.violation("enum-error.txt", f"schedule enumeration failed: {e}\n", no_input=True)
+        ctx.log(f"correspondence broken: oracle-only search over preemption-bounded/enumerated schedules found {n} failing input(s)")
+        return
+    for i in range(0, len(pc), 4000):
+        if ctx.violations:
+            break
+        eng.check(pc[i:i + 4000], "preemption")
+    ctx.log(f"{len(pc)} preemption-bounded schedules")
+    if ctx.violations:
+        return
     try:
         cases, info = enumerate_configs(ctx)
     except RuntimeError as e:
@@ -254,10 +403,12 @@ META = {
                   "+ schedule correspondence through yield hooks on the real package + counter-example theorem for the false clause"),
     "level_text": ("Theorems in lean/Sentinel/Props/C09.lean about the small-step model Sentinel.LAR (one step = one hooked atomic access of "
                    "currentBucketOfTime / ResetBucketTo / MetricBucket / the readers): no_invention for every schedule and thread count, mutual "
-                   "exclusion of the reset section, termination measures (solo progress, holder release), and the decide-checked witness that "
+                   "exclusion of the reset section, own-bucket crediting under the stall condition, exact accounting, termination (holder release, solo "
+                   "progress, the round-robin drain within an explicit number of rounds, every fair infinite schedule), and the decide-checked witness that "
                    "'expired data is never visible' is false. The model is tied to core/stat/base by replaying the same schedules under the "
                    "deterministic yield-hook scheduler: per-thread return values, the sequence of yield points every thread parks at, and the final "
-                   "buckets are compared line by line; all interleavings of fixed 2-thread configurations are enumerated, 2-3 thread schedules sampled."),
+                   "buckets are compared line by line; all interleavings of fixed 2-thread configurations are enumerated, 2-3 thread schedules sampled, "
+                   "single/double-preemption schedule families cover trees whose step granularity differs from the model's (oracle-only hunt)."),
     "level_note": ("Trusted: Lean kernel; axioms propext/Classical.choice/Quot.sound; Go harness (internal/sched, virtual clock). Modelled not "
                    "verified: sequentially consistent atomics (all accesses are sync/atomic), the three BucketStart loads of one loop iteration of "
                    "currentBucketOfTime as one step (no hook between them), int64 counters as naturals, non-negative amounts. Known finding "
